@@ -678,16 +678,27 @@ def rules(repo=None):
 
 
 EXPLANATION = (
-    "R1: the six regexes.append sites of DigitalRFEventHandler use only the RE_* constants imported from list_drf. R2: for all 36 "
-    "flag rows the union of registered path regexes (abstract execution of the if/elif chains) is compared as a regular language "
-    "with the listing's composition <dir>/<SUBDIR>/<file regex chosen by _yield_matching_files> and <dir>/<properties regex chosen "
-    "by ilsdrf>, restricted to the property's domain (last two components <sub-directory>/<file>, whatever the ancestors are called / directly in a directory, no newline). R3: no "
-    "regex accepts a tmp. file name at format depth; directories are ignored. R4: move events are converted (tracked->other = "
-    "deleted, other->tracked = created, neither = dropped). R5: the only drops after a match are strict comparisons with the "
-    "window bounds on the name timestamp, and the window test is not evaluated for a match without a time group (properties "
-    "files; infeasibility over the CFG truth states with a ghost flag); every m.group(name) is defined in all regexes that reach it or guarded. R6: the window verdict enters the per-path match flags of a move (source and destination separately), it is not applied once per event. Does NOT decide "
-    "that the listing's window (C14) is the same inclusive window.")
-TECHNIQUE = ('Python ast; abstract execution of flag chains -> regular-language equality with the listing grammar for all flag rows; event conversion by flag states')
+    'R1: the six regexes.append sites of DigitalRFEventHandler use only the RE_* constants imported from list_drf. R2: '
+    'for all 36 flag rows the union of registered path regexes (abstract execution of the if/elif chains) is compared as '
+    "a regular language with the listing's composition <dir>/<SUBDIR>/<file regex chosen by _yield_matching_files> and "
+    "<dir>/<properties regex chosen by ilsdrf>, restricted to the property's domain (last two components <sub-"
+    'directory>/<file>, whatever the ancestors are called / directly in a directory, no newline). R3: no regex accepts a '
+    'tmp. file name at format depth; directories are ignored. R4: move events are converted (tracked->other = deleted, '
+    'other->tracked = created, neither = dropped). R5: the verdict of the (loop-free, helper-inlined) method that applies'
+    " the window is enumerated path by path into a propositional formula D = 'returns a false value' (pyform; a statement"
+    " of a try body that may raise forks on a ghost atom): the time compared is timedelta(seconds=int(group('secs')), "
+    "milliseconds=int(group('frac')) or 0); the bounds compared are the attributes __init__ derives from "
+    'starttime/endtime without a rounding operation (a rounded bound attribute is a violation); on the paths where '
+    "group('secs') raised D does not depend on the window atoms (properties files are exempt); D does not depend on the "
+    "presence of group('frac'); for every valuation of the remaining atoms D is constant or exactly (start is not None "
+    'and T < start) or (end is not None and T > end), i.e. strict on both sides (truth tables); every m.group(name) is '
+    'defined in all regexes that reach it or guarded. R6: the window verdict enters the per-path match flags of a move '
+    "(source and destination separately), it is not applied once per event. Does NOT decide that the listing's window "
+    '(C14) is the same inclusive window.')
+TECHNIQUE = (
+    'Python ast; abstract execution of flag chains -> regular-language equality with the listing grammar for all flag '
+    'rows; event conversion by flag states; path-by-path outcome enumeration of the window method into a propositional '
+    'formula compared by truth table')
 ASSUMPTIONS = ["watchdog delivers events only for watched paths and matches with re.match on the decoded path",
                "fixed parts of names are lower case (watchdog compiles case-insensitively by default)"]
 FILES = [WD, "python/digital_rf/list_drf.py", "python/digital_rf/ringbuffer.py"]
